@@ -26,7 +26,7 @@ sys.path.insert(0, str(Path(__file__).resolve().parent.parent))
 from mc import common
 
 R = common.bootstrap()
-from mc import hist as H, world as W  # noqa: E402
+from mc import dsched, explore, hist as H, world as W  # noqa: E402
 from mc.fakes import services as FS  # noqa: E402
 import backoff._sync  # noqa: E402
 import replicat.backends.local as L  # noqa: E402
@@ -326,6 +326,68 @@ def http_op_cases(args):
     return n, vs, {f'{k[0]}|{k[1]}|{k[2]}': v for k, v in measured.items()}
 
 
+# ---------------------------------------------------------------- concurrent operations across a token expiry
+@explore.register
+def run_expiry(params, prefix):
+    """k concurrent B2 operations; every request has latency (the scheduler's environment decides the completion
+    order); the account token expires once after `expire_at` requests. One expiry is a transient fault: every
+    operation must succeed, whatever the completion order."""
+    out_h = {}
+
+    async def go():
+        be, fake = make_http('b2')
+        out_h['fake'] = fake
+        await _c(be.exists('data/aa/none'))          # authorised, bucket known
+        fake.latency = True
+        fired = {'done': False}
+
+        def before(idx, rec):
+            if not fired['done'] and idx - base >= params['expire_at']:
+                fired['done'] = True
+                fake.expire_tokens()
+
+        base = fake.n
+        fake.before_serve = before
+        fake.reset_budget(300)
+        import asyncio
+        ops = []
+        for i in range(params['k']):
+            data = bytes([48 + i]) * 20
+            if params['ops'][i] == 'upload_stream':
+                ops.append(_c(be.upload_stream(f'data/bb/obj{i}', io.BytesIO(data), len(data), CHUNK)))
+            elif params['ops'][i] == 'upload':
+                ops.append(_c(be.upload(f'data/bb/obj{i}', data)))
+            else:
+                fake.o[f'data/bb/obj{i}'] = data
+                ops.append(_c(be.download(f'data/bb/obj{i}')))
+        res = await asyncio.gather(*ops, return_exceptions=True)
+        await be.close()
+        return res
+
+    x = dsched.run_one(lambda loop, s: go(), prefix, horizon=6000, want_env=True)
+    fake = out_h.get('fake')
+    out = {'points': x.points, 'err': None, 'viol': [], 'order': hash(tuple(role_of(r) for r in fake.requests)) if fake else 0}
+    sig0 = {'adapter': 'b2', 'part': 'concurrent-expiry'}
+    if x.err is not None or x.exc is not None:
+        out['err'] = None if x.err is None else ('hang' if isinstance(x.err, dsched.Hang) else 'capped' if isinstance(x.err, dsched.Horizon) else 'diverged')
+        out['errmsg'] = repr(x.err or x.exc)[:200]
+        if out['err'] != 'diverged' and out['err'] != 'capped':
+            out['viol'].append((dict(sig0, what='run-failed'), {'params': params, 'err': out['errmsg']}))
+        out['outcome'] = out['obs'] = ('ERR', out['errmsg'][:40])
+        return out
+    bad = [(i, r) for i, r in enumerate(x.result) if isinstance(r, BaseException)]
+    for i, r in bad[:1]:
+        out['viol'].append((dict(sig0, what='transient-expiry-not-masked', exc=type(r).__name__, op=params['ops'][i]),
+                            {'params': params, 'op_index': i, 'err': repr(r)[:160], 'requests': len(fake.requests),
+                             'authorisations': fake.auth_count}))
+    for i in range(params['k']):
+        if params['ops'][i] != 'download' and not bad and fake.o.get(f'data/bb/obj{i}') != bytes([48 + i]) * 20:
+            out['viol'].append((dict(sig0, what='stored-state-wrong-after-faults'), {'params': params, 'op_index': i}))
+    out['outcome'] = ('OK' if not bad else 'FAILED', len(bad))
+    out['obs'] = (out['outcome'], tuple(role_of(r) for r in fake.requests))
+    return out
+
+
 # ---------------------------------------------------------------- Local adapter
 class Injected(OSError):
     pass
@@ -602,6 +664,9 @@ def local_pair_case(op, p1, p2):
 
 
 def replay(case):
+    if 'params' in case and 'expire_at' in case['params']:
+        r = run_expiry(case['params'], case.get('choices', []))
+        return {'violations': [v[0] for v in r['viol']], 'outcome': r['outcome']}
     if case.get('adapter') == 'local':
         n, vs, b = local_op_cases(case['op'])
         return {'violations': [v[0] for v in vs][:6]}
@@ -628,12 +693,29 @@ def main():
         budgets_all[f'local:{op}'] = b
         for sig, d in vs:
             chk.violation(sig, d)
+    # concurrent operations across one token expiry, every completion order
+    tote = explore.Agg()
+    for ops in [['upload_stream', 'upload_stream'], ['upload', 'download'], ['download', 'download']] + \
+            ([['upload_stream', 'upload_stream', 'download']] if t == 'thorough' else []):
+        for at in ((0, 2) if t == 'quick' else range(0, 7)):
+            params = {'k': len(ops), 'ops': ops, 'expire_at': at, '_free': ['env-complete']}
+            agg, info = explore.explore(run_expiry, params, 0)
+            if not info['deterministic_replay']:
+                chk.harness_error(f'replay of {params} not deterministic')
+            for sig, d in agg.viol:
+                chk.violation(sig, d)
+            for kk, v in agg.errs.items():
+                if kk in ('capped', 'diverged'):
+                    chk.harness_error(f'{kk} in {params}: {v[2]}')
+            tote.merge(agg)
+    n += tote.executions
     chk.sample({'adapter': 'b2', 'op': 'upload_stream', 'plan': [['b2_upload_file', 'reset-after-request-chunks', {'k': 1}, 2]]})
     chk.sample({'adapter': 'local', 'op': 'upload_stream', 'position': ['rename', 0], 'count': 3})
     chk.coverage.update({
         'evaluations': n, 'distinct_nontrivial': n,
         'rule': 'every request role of every operation x 14 fault kinds x c=1..measured budget and forever (+ pairs of single '
                 'faults at two roles); local: every interposed file-system step x c=1..budget, forever, pairs; each run distinct',
+        'concurrent_expiry_executions': tote.executions, 'concurrent_expiry_orders': len(tote.orders),
         'http_operation_configs': len(hcases), 'local_operations': len(lops), 'local_budgets': budgets_all, 'bound_requests': BOUND,
     })
     chk.assumptions += ['retry budget is measured, not assumed (a changed max_tries is no alarm) but must be >= 1',
